@@ -491,6 +491,7 @@ func checkC16(c *Ctx) {
 	checkMatchersPaired(c, "C16.matchers-paired")
 	checkAbortRespected(c, "C16.abort-respected")
 	checkErrPolarity(c, "C16.err-polarity")
+	checkRound4Misc(c, "C16")
 }
 
 func instrString(in ssa.Instruction) string {
